@@ -33,6 +33,9 @@ def repo_src():
 
 def use_repo():
     """Make `import fast_ticc` resolve to $VERIF_REPO/src with hooks enabled and BLAS pinned."""
+    import warnings
+    warnings.filterwarnings("ignore")           # numpy RuntimeWarnings of degenerate statistics are expected noise
+    os.environ.setdefault("PYTHONWARNINGS", "ignore")
     os.environ.setdefault("FAST_TICC_VERIF", "1")
     for v in ("OMP_NUM_THREADS", "OPENBLAS_NUM_THREADS", "MKL_NUM_THREADS"):
         os.environ.setdefault(v, "1")
@@ -159,3 +162,60 @@ def known_signature(dev):
         if e["deviation"] == dev:
             return e["signature"]
     return dev
+
+
+def pmap(fn, jobs, workers=None, stall_timeout=300, retries=2):
+    """Parallel map over processes (fork, NON-daemonic workers so that library code may open its own pool) with a
+    watchdog: if no job completes for `stall_timeout` seconds the worker processes are killed and the unfinished
+    jobs are retried in a fresh executor (a rare lost-wakeup deadlock of ProcessPoolExecutor was observed once:
+    every worker idle, parent waiting).  Exhausted retries are a machinery failure, never a verdict."""
+    import concurrent.futures as cf
+    import multiprocessing as mp
+    jobs = list(jobs)
+    results = [None] * len(jobs)
+    pending = list(range(len(jobs)))
+    for attempt in range(retries + 1):
+        if not pending:
+            break
+        ctx = mp.get_context("fork")
+        ex = cf.ProcessPoolExecutor(max_workers=min(workers or NCPU, max(1, len(pending))), mp_context=ctx)
+        futs = {ex.submit(fn, jobs[i]): i for i in pending}
+        not_done = set(futs)
+        stalled = False
+        try:
+            while not_done:
+                done, not_done = cf.wait(not_done, timeout=stall_timeout, return_when=cf.FIRST_COMPLETED)
+                if not done:
+                    stalled = True
+                    break
+                for f in done:
+                    results[futs[f]] = f.result()
+                    pending.remove(futs[f])
+        finally:
+            if stalled:
+                for p in list(getattr(ex, "_processes", {}).values()):
+                    try:
+                        p.kill()
+                    except Exception:                    # pylint: disable=broad-except
+                        pass
+                ex.shutdown(wait=False, cancel_futures=True)
+                print(f"WATCHDOG: parallel map stalled for {stall_timeout}s with {len(pending)} job(s) left; "
+                      f"retry {attempt + 1}/{retries}", file=sys.stderr)
+            else:
+                ex.shutdown(wait=True)
+    if pending:
+        raise MachineryError(f"parallel map did not finish {len(pending)} job(s) after {retries} retries")
+    return results
+
+
+def _apply_chunk(arg):
+    fn, chunk = arg
+    return [fn(j) for j in chunk]
+
+
+def pmap_chunked(fn, jobs, chunk=16, **kw):
+    """pmap for many small jobs: `fn` must be a module-level function."""
+    jobs = list(jobs)
+    parts = [jobs[i:i + chunk] for i in range(0, len(jobs), chunk)]
+    out = pmap(_apply_chunk, [(fn, p) for p in parts], **kw)
+    return [r for part in out for r in part]
